@@ -331,6 +331,17 @@ def oracle_sld(c: Ctx, struct, density, energy):
             abs(float(k)) * sc1, abs(float(k)) * sc2)
 
 
+# past failures (fixes/xsf-*.patch): always run first
+CORPUS = [
+    ([(1, (1, 2, 1)), (1, (17, 0, -1))], "sld_e"),          # D{+}Cl{-}: ValueError before the repair
+    ([(1, (1, 3, 1)), (1, (17, 0, -1))], "sld_w"),          # T{+}Cl{-}
+    ([(2, (1, 2, 0)), (1, (8, 0, 0))], "sld_nat"),          # D2O at natural density = H2O
+    ([(1, (14, 0, 0)), (2, (8, 0, 0))], "ior_list"),        # wavelength=[…] list (D16)
+    ([(1, (14, 0, 0)), (2, (8, 0, 0))], "mirror_w"),        # mirror_reflectivity(wavelength=[…])
+    ([(1, (14, 0, 0))], "sld_vec"),                         # Si (row order of si.nff)
+]
+
+
 def stream_compounds(run: Run, c: Ctx, batch: Batch, n):
     np = c.np
     from periodictable import xsf
@@ -338,6 +349,8 @@ def stream_compounds(run: Run, c: Ctx, batch: Batch, n):
     rng = run.rng
     for idx in range(n):
         struct = gen_compound(rng, c)
+        if idx < len(CORPUS):
+            struct = CORPUS[idx][0]
         cnt = pyside.flat_counts(struct)
         has_table = all(k[0] in c.tables for k in cnt)
         ion_free = all(k[2] == 0 for k in cnt)
@@ -345,6 +358,8 @@ def stream_compounds(run: Run, c: Ctx, batch: Batch, n):
         dens = round(math.exp(rng.uniform(math.log(0.05), math.log(22.0))), 4)
         call = rng.choice(["sld_e", "sld_e", "sld_w", "sld_vec", "sld_list", "sld_nat", "ior_e", "ior_w",
                            "ior_list", "mirror", "mirror_w", "sld_nodensity"])
+        if idx < len(CORPUS):
+            call = CORPUS[idx][1]
         if call == "sld_nat" and not ion_free:
             call = "sld_e"
         if call in ("sld_w", "ior_w", "mirror_w", "ior_list") and ekind in ("node", "edge-of-range"):
